@@ -16,7 +16,7 @@ use crate::zoo::*;
 use serde_json::json;
 use std::sync::Mutex;
 
-const PS: [f64; 4] = [0.5, 0.683, 0.9, 0.99];
+const PS: [f64; 6] = [0.1, 0.3, 0.5, 0.683, 0.9, 0.99];
 
 #[derive(Clone)]
 struct Design {
@@ -169,7 +169,7 @@ fn realisation(d: &Design, rng: &mut Rng, t: &mut Tally) {
 }
 
 pub fn run(ctx: &Ctx) {
-    ctx.rule("designs: F1 two decays + offset, F2 Gaussian peak + decay + offset, F3 decay + offset, F4 sin(wx) + exp(-ax)cos(wx) on 40 points (basis values, derivatives and whitened Jacobian rows of every sign pattern); F1-F3 on N in {10,14,30} points, coefficients in ±[1,4] (random signs from the fifth design on); noise Gaussian with sigma_i = 1e-4 (every fifth design: 1e-9) of the largest |coefficient| (homoscedastic, unweighted) or spread over a decade (weights 1/sigma_i, or c/sigma_i with c in [0.2,5]; from the fifth design on each weight carries a random sign); per design K independent realisations (quick 30000 on 8 designs, thorough 1000000 on 12; plus one large design with 2089..2169 observations through the parallel constructor and K/50 realisations, and one design in large units: 8 samples, sigma_i of 3..120 in the data's units, weights 1/sigma_i far below one), each fitted with fit_with_statistics from a start 1% off; tallies: true curve inside the band per sample, true c_j and alpha_k inside the Student-t interval built from the reported variance (oracle's own quantile), p in {0.5, 0.683, 0.9, 0.99}; mean reduced chi2 (1 for w=1/sigma, c^2 for w=c/sigma). Verdict per tally: |frequency - p| <= 6·sqrt(p(1-p)/K) + 0.008·sqrt(p(1-p)). evaluations = fits; distinct = (design, realisation block)");
+    ctx.rule("designs: F1 two decays + offset, F2 Gaussian peak + decay + offset, F3 decay + offset, F4 sin(wx) + exp(-ax)cos(wx) on 40 points (basis values, derivatives and whitened Jacobian rows of every sign pattern); F1-F3 on N in {10,14,30} points, coefficients in ±[1,4] (random signs from the fifth design on); noise Gaussian with sigma_i = 1e-4 (every fifth design: 1e-9) of the largest |coefficient| (homoscedastic, unweighted) or spread over a decade (weights 1/sigma_i, or c/sigma_i with c in [0.2,5]; from the fifth design on each weight carries a random sign); per design K independent realisations (quick 30000 on 8 designs, thorough 1000000 on 12; plus one large design with 2089..2169 observations through the parallel constructor and K/50 realisations, and one design in large units: 8 samples, sigma_i of 3..120 in the data's units, weights 1/sigma_i far below one), each fitted with fit_with_statistics from a start 1% off; tallies: true curve inside the band per sample, true c_j and alpha_k inside the Student-t interval built from the reported variance (oracle's own quantile), p in {0.1, 0.3, 0.5, 0.683, 0.9, 0.99}; mean reduced chi2 (1 for w=1/sigma, c^2 for w=c/sigma). Verdict per tally: |frequency - p| <= 6·sqrt(p(1-p)/K) + 0.008·sqrt(p(1-p)). evaluations = fits; distinct = (design, realisation block)");
     ctx.assume("6-sigma binomial bounds over <= 1e3 tests per run give a false-alarm rate < 1e-5 per run; the slack 0.008·sqrt(p(1-p)) (0.004 at p=0.5, 0.0008 at p=0.99) absorbs the O(noise) non-linearity bias and the library's quantile approximation; a pass says 'not distinguishable from calibrated at resolution ~0.01'");
     let t = ctx.tier;
     let k_per = t.pick(30000u64, 1000000u64);
